@@ -11,7 +11,7 @@ use serde_json::{json, Value};
 use std::collections::{HashSet, VecDeque};
 use vph::refdec;
 
-pub const RULE: &str = "initial files: stereo 16-bit, 40 PCM frames, with {no, one 0-byte, one 1-byte, one 20-byte, one 100-byte, two (20+7)} padding blocks × {no comment, comment} × {no, one application block} × {seek table, none}; edit alphabet applied through update_file: grow/shrink the comment so that (new metadata size − old) = first padding size + d for every d ∈ −8..+8, shrink the comment by 1..8 bytes, remove the comment, add application blocks of 0/1/100 bytes, remove applications, add a second padding, resize the first padding to 0/1/20, remove all padding, move padding first / reverse block order, no-op, callback returning Err, and invalid lists (two 32×32 icons, two general icons, a 2^24-byte application block, padding pushed past 2^24−1 by shrinking a 16 MiB neighbour); BFS over ALL edit sequences to depth 2 (thorough 3) from every initial file with content de-duplication; per transition: audio bytes from the first frame on are identical and still decode to the same PCM; Ok(false) ⇒ file length unchanged and the blocks read back equal the edited list apart from the first padding's size; Ok(true) ⇒ rebuilt sink == write_blocks(edited list) ++ identical frames and the original is untouched; Err ⇒ original byte-for-byte untouched and nothing written to the sink; plus path-like updates where the `rebuilt` closure truncates the very file being read (what metadata::update(path) does with File::create): 3 file sizes (40 PCM frames, 9 KB and 40 KB of incompressible audio, i.e. beyond any 8 KiB I/O buffer) × {no padding, 100-byte padding} × 8 edits, same oracle on the single aliased file";
+pub const RULE: &str = "initial files: stereo 16-bit, 40 PCM frames, with {no, one 0-byte, one 1-byte, one 20-byte, one 100-byte, two (20+7)} padding blocks × {no comment, comment} × {no, one application block} × {seek table, none}; edit alphabet applied through update_file: grow/shrink the comment so that (new metadata size − old) = first padding size + d for every d ∈ −8..+8, shrink the comment by 1..8 bytes, remove the comment, add application blocks of 0/1/100 bytes, remove applications, add a second padding, resize the first padding to 0/1/20, remove all padding, move padding first / reverse block order, no-op, callback returning Err, and invalid lists (two 32×32 icons, two general icons, a 2^24-byte application block, padding pushed past 2^24−1 by shrinking a 16 MiB neighbour); BFS over ALL edit sequences to depth 2 (thorough 3) from every initial file with content de-duplication; per transition: audio bytes from the first frame on are identical and still decode to the same PCM; Ok(false) ⇒ file length unchanged and the blocks read back equal the edited list apart from the first padding's size; Ok(true) ⇒ rebuilt sink == write_blocks(edited list) ++ identical frames and the original is untouched; Err ⇒ original byte-for-byte untouched and nothing written to the sink; plus path-like updates where the `rebuilt` closure truncates the very file being read (what metadata::update(path) does with File::create): 3 file sizes (40 PCM frames, 9 KB and 40 KB of incompressible audio, i.e. beyond any 8 KiB I/O buffer) × {no padding, 100-byte padding} × 8 edits, same oracle on the single aliased file, and the same cases once more on a real scratch file through the path-based metadata::update";
 pub const ASSUMPTIONS: &[&str] = &["edits replace the block list with a pre-computed edited list inside the callback (equivalent to in-place mutation since BlockList is plain data)", "write_blocks/BlockList::read themselves are C11's business"];
 pub fn bounds(quick: bool) -> Value {
     json!({"depth": if quick { 2 } else { 3 }, "size_delta": "-8..+8 around exact fit", "initial_files": 48})
@@ -366,7 +366,7 @@ fn alias_files() -> Vec<(String, Vec<u8>)> {
 }
 const ALIAS_EDITS: &[&str] = &["fit:8", "fit:0", "shrink:3", "app:100", "rm-comment", "noop", "pad2", "rm-pad"];
 
-fn alias_step(file: &[u8], edit: &str) -> Result<Option<String>, (String, String)> {
+fn alias_step(file: &[u8], edit: &str, on_disk: bool) -> Result<Option<String>, (String, String)> {
     let cur = BlockList::read(file).map_err(|e| ("machinery".to_string(), format!("{e:?}")))?;
     let new_list = match edited(edit, &cur) {
         Some(b) => b,
@@ -374,6 +374,9 @@ fn alias_step(file: &[u8], edit: &str) -> Result<Option<String>, (String, String
     };
     let st0 = refdec::decode(file).map_err(|r| ("machinery-state-undecodable".to_string(), format!("{} {}", r.code, r.msg)))?;
     let audio0 = &file[st0.first_frame_offset..];
+    if on_disk {
+        return disk_step(file, &new_list, audio0);
+    }
     let shared = SharedFile(std::rc::Rc::new(std::cell::RefCell::new(file.to_vec())));
     let (s1, s2) = (shared.clone(), shared.clone());
     let nl = new_list.clone();
@@ -392,6 +395,30 @@ fn alias_step(file: &[u8], edit: &str) -> Result<Option<String>, (String, String
     })
     .map_err(|p| (format!("panic@{}", crate::core::panic_loc(&p)), format!("update_file panics: {p}")))?;
     let after = shared.0.borrow().clone();
+    judge_update(file, &after, res, &new_list, audio0, "through a handle that aliases the file")
+}
+
+/// the real path-based `metadata::update` on a scratch file below /verif/target/tmp
+fn disk_step(file: &[u8], new_list: &BlockList, audio0: &[u8]) -> Result<Option<String>, (String, String)> {
+    let dir = std::path::Path::new("/verif/target/tmp").join(format!("c10-path-{}", std::process::id()));
+    std::fs::create_dir_all(&dir).map_err(|e| ("machinery".to_string(), format!("{e}")))?;
+    let path = dir.join("f.flac");
+    std::fs::write(&path, file).map_err(|e| ("machinery".to_string(), format!("{e}")))?;
+    let nl = new_list.clone();
+    let p2 = path.clone();
+    let res = guarded(move || {
+        flac_codec::metadata::update::<_, flac_codec::Error>(&p2, move |b: &mut BlockList| {
+            *b = nl;
+            Ok(())
+        })
+    });
+    let after = std::fs::read(&path).map_err(|e| ("machinery".to_string(), format!("{e}")));
+    let _ = std::fs::remove_dir_all(&dir);
+    let res = res.map_err(|p| (format!("panic@{}", crate::core::panic_loc(&p)), format!("metadata::update panics: {p}")))?;
+    judge_update(file, &after?, res, new_list, audio0, "by metadata::update(path)")
+}
+
+fn judge_update(file: &[u8], after: &[u8], res: Result<bool, flac_codec::Error>, new_list: &BlockList, audio0: &[u8], how: &str) -> Result<Option<String>, (String, String)> {
     match res {
         Err(e) => {
             if after != file {
@@ -400,8 +427,8 @@ fn alias_step(file: &[u8], edit: &str) -> Result<Option<String>, (String, String
             Ok(Some("refused".into()))
         }
         Ok(rebuilt) => {
-            let want_meta = ser(&new_list).map_err(|e| ("invalid-list-accepted".to_string(), e))?;
-            let st1 = refdec::decode(&after).map_err(|r| ("updated-file-undecodable".to_string(), format!("after a {} update through a handle that aliases the file, the independent decoder rejects it: {} {} (file {} → {} bytes)", if rebuilt { "rebuilding" } else { "in-place" }, r.code, r.msg, file.len(), after.len())))?;
+            let want_meta = ser(new_list).map_err(|e| ("invalid-list-accepted".to_string(), e))?;
+            let st1 = refdec::decode(&after).map_err(|r| ("updated-file-undecodable".to_string(), format!("after a {} update {how}, the independent decoder rejects it: {} {} (file {} → {} bytes)", if rebuilt { "rebuilding" } else { "in-place" }, r.code, r.msg, file.len(), after.len())))?;
             if &after[st1.first_frame_offset..] != audio0 {
                 return Err(("audio-bytes-changed".into(), format!("frames differ after the update: {} audio bytes before, {} after", audio0.len(), after.len() - st1.first_frame_offset)));
             }
@@ -467,7 +494,8 @@ pub fn run(ctx: &Ctx, acc: &mut Acc) {
             if !ctx.mine() {
                 continue;
             }
-            match alias_step(&file, edit) {
+            for on_disk in [false, true] {
+            match alias_step(&file, edit, on_disk) {
                 Ok(None) => {}
                 Ok(Some(l)) => {
                     acc.states += 1;
@@ -475,10 +503,12 @@ pub fn run(ctx: &Ctx, acc: &mut Acc) {
                     acc.transitions += 1;
                     acc.outcome(format!("alias:{}:{l}", edit.split(':').next().unwrap()));
                 }
+                Err((c, d)) if c == "machinery" => acc.notes.push(format!("machinery: {name} {edit} on_disk={on_disk}: {d}")),
                 Err((c, d)) => {
                     acc.executions += 1;
-                    acc.violation(format!("C10|alias|{c}"), format!("{name}, edit {edit}, update through handles that alias one file (as metadata::update(path) does): {d}"), json!({"kind":"edit-alias","name":name,"edit":edit}));
+                    acc.violation(format!("C10|alias{}|{c}", if on_disk { "-disk" } else { "" }), format!("{name}, edit {edit}, {}: {d}", if on_disk { "real file updated with metadata::update(path)" } else { "update through handles that alias one file (as metadata::update(path) does)" }), json!({"kind":"edit-alias","name":name,"edit":edit,"on_disk":on_disk}));
                 }
+            }
             }
         }
     }
@@ -562,7 +592,7 @@ pub fn replay(v: &Value) -> Option<(bool, String)> {
         "edit-alias" => {
             let name = v["name"].as_str()?;
             let file = alias_files().into_iter().find(|f| f.0 == name)?.1;
-            let r = alias_step(&file, v["edit"].as_str()?);
+            let r = alias_step(&file, v["edit"].as_str()?, v["on_disk"].as_bool().unwrap_or(false));
             Some((r.is_err(), format!("{r:?}")))
         }
         "edit-big" => {
